@@ -48,18 +48,25 @@ def check(ctx):
             continue
         hits = []
         misses = []
+        bound = None
+        for conds, _ in paths:
+            for c in conds:
+                m = re.search(r"matches TypeStructure::Custom\((\w+)\)", c)
+                if m:
+                    bound = m.group(1)
+        keyvar = ("var", bound or "name")
         for conds, sv in paths:
-            lookup = [c for c in conds if re.search(r"if-let Some\(\w+\) = \w+\.get\(name\)", c) and "not(" not in c]
+            lookup = [c for c in conds if re.search(r"if-let Some\(\w+\) = \w+\.get\(\w+\)", c) and "not(" not in c]
             if lookup:
                 hits.append((conds, sv))
             else:
                 misses.append((conds, sv))
-        key_ok = all(any(l[0] == "maphit" and l[2] == ("var", "name") for l in leaves(sv)) or owner == "ZodVisitor" and entry == "visit_type" for _, sv in hits)
+        key_ok = all(any(l[0] == "maphit" and l[2] == keyvar for l in leaves(sv)) or owner == "ZodVisitor" and entry == "visit_type" for _, sv in hits)
         if not hits:
             r1.bad(V(r1.id, "%s::%s" % (owner, entry), "no-lookup", "Custom(name) is rendered without consulting config.type_mappings: %s" % [render(sv) for _, sv in paths]))
             continue
         # hit paths must not print the name; miss paths must print it (plain) / {name}Schema (zod schema side)
-        bad_hit = [render(sv) for _, sv in hits if any(l == ("var", "name") for l in leaves(sv) if l[0] == "var")]
+        bad_hit = [render(sv) for _, sv in hits if any(l == keyvar for l in leaves(sv) if l[0] == "var")]
         if bad_hit:
             r1.bad(V(r1.id, "%s::%s" % (owner, entry), "hit-prints-name:%s" % "|".join(bad_hit), "on a mapping hit the name itself is still printed: %s" % bad_hit))
         if not key_ok:
@@ -82,7 +89,7 @@ def check(ctx):
                     r4.bad(V(r4.id, "ZodVisitor::visit_custom", "image:%s:%s" % (k, img.get(k)), "a type mapped to %s is validated as %s (expected %s)" % (k, img.get(k), v)))
         else:
             vals = sorted(set(render(sv) for _, sv in hits))
-            if all(sv[0] == "maphit" and sv[2] == ("var", "name") for _, sv in hits):
+            if all(sv[0] == "maphit" and sv[2] == keyvar for _, sv in hits):
                 r1.ok("%s::%s: hit renders the mapped text verbatim" % (owner, entry))
             else:
                 r1.bad(V(r1.id, "%s::%s" % (owner, entry), "hit-value:%s" % "|".join(vals), "a mapping hit renders %s instead of the mapped text" % vals))
